@@ -343,8 +343,12 @@ def write_evidence(prop, tier, seed, wall, n_ob, n_ok, per_ob, bounded, units, r
     m = meta.CLAIMED[prop]
     level = m.get('level', 'proof')
     cmds = sorted(set(r['cmd'] for r in results.values() if r.get('cmd')) | set(j.get('cmd', '') for j in jres if j.get('cmd')))
+    # proof obligations the claim rests on: a proof-class obligation that fails exactly as a recorded known finding is not part
+    # of what is claimed to hold -- it is listed under known_findings / known_finding_obligations, never counted as discharged
+    kf_ids = sorted(o['id'] for o in per_ob if o.get('status') == 'known-finding')
     cov = dict(
-        obligations=n_ob, discharged=n_ok,
+        obligations=n_ob - len(kf_ids), discharged=n_ok,
+        proof_class_obligations_total=n_ob, known_finding_obligations=kf_ids,
         checker_cmd=' ; '.join(cmds) if cmds else 'none',
         trusted_base=sorted(set(meta.TRUSTED_BASE + m.get('trusted', []) + trusted)),
         functions_under_contract=[o['target'] for o in per_ob if o.get('kind') in ('contract', 'safety')],
